@@ -224,6 +224,15 @@ class C17(TracedProp):
                   "the column-wise centroid; the known scalar-centre deviation is an executable model - only an exact match "
                   "with it is attributed to the known finding. Non-trivial: converged, all clusters non-empty.")
 
+    def tweak(self, case, r, tier):
+        if r.random() < 0.12:
+            # "does not change when a constant is added to any one sensor": large constants too
+            n = case["data"]["N"]
+            shift = [0.0] * n
+            shift[r.randrange(n)] = float(r.choice([1e3, 1e4, 1e5, 1e6, -1e6, 1e7]))
+            case["data"]["shift"] = shift
+        return case
+
     def is_nontrivial(self, out):
         if not out.ok or trace.exit_reason(out) not in ("converged", "converged_at_limit"):
             return False
